@@ -129,6 +129,19 @@ fn enumerate(ctx: &Ctx) -> Box<dyn Iterator<Item = Case>> {
             }
         }
     }
+    // framebuffer palette: every interesting colour count at a fixed tag size
+    for n in [0usize, 1, 2, 5] {
+        let exact = (32 + 2 + 3 * n) as u32;
+        let mut counts: Vec<u16> = (0..=12).collect();
+        counts.extend([0x5554, 0x5555, 0x5556, 0x5557, 0x5558, 0xAAAA, 0xAAAB, 0xAAAC, 0x8000, 0xFFFE, 0xFFFF, 0x0100, 0x1000]);
+        for cnt in counts {
+            for size in [exact, exact + 1, exact + 6] {
+                let mut img = sweep_image(false, 8, n, 0, size);
+                put16(&mut img, 32, cnt);
+                v.push(Case { hdr: false, kind: 8, img: Hex(img) });
+            }
+        }
+    }
     for n in 0..=9usize {
         let base = sweep_image(true, 1, n, 0, 8).len();
         for size in 0..=(base + 16) as u32 {
